@@ -14,3 +14,4 @@ def check(A):
         C.read_loop_rules(A, cf, 'C08', timeout_rule='C08')
         C.break_release_rule(A, cf, 'C08')
         C.send_packet_rule(A, cf, 'C08')
+        C.send_request_rule(A, cf, 'C08')
